@@ -48,7 +48,7 @@ MUTANTS = [
     ("c07_keep_oldest_value", "C07", [(P14,
         "        if message_buffer and node and node.sleeping:\n            message_buffer.set_messages[\n                (message.node_id, message.child_id, message.message_type)\n            ] = message\n",
         "        if message_buffer and node and node.sleeping:\n            message_buffer.set_messages.setdefault(\n                (message.node_id, message.child_id, message.message_type), message\n            )\n")]),
-    ("c07_flush_on_heartbeat_22", "C07 C19", [(P22,
+    ("c07_flush_on_heartbeat_22", "C07", [(P22,
         "        node.heartbeat = heartbeat\n\n        return message\n",
         "        node.heartbeat = heartbeat\n\n        return await cls._handle_sleep_buffer(gateway, message, message_buffer)\n")]),
     ("c07_presleep_forgets_sleeping", "C04", [(P22,
@@ -131,6 +131,18 @@ MUTANTS = [
         "        protocol = get_protocol(value)\n        self._protocol_version = value\n", "        self._protocol_version = value\n        protocol = get_protocol(value)\n")]),
     ("c05_internal_table_21_short", "C05 C19", [("src/aiomysensors/model/protocol/protocol_21.py",
         "    I_REGISTRATION_RESPONSE = 27  # Register response from GW\n    I_DEBUG = 28  # Debug message\n", "    I_REGISTRATION_RESPONSE = 27  # Register response from GW\n")]),
+    ("c19_override_set_in_21", "C19", [("src/aiomysensors/model/protocol/protocol_21.py",
+        "class IncomingMessageHandler(IncomingMessageHandler20):\n    \"\"\"Represent a message handler.\"\"\"\n",
+        "class IncomingMessageHandler(IncomingMessageHandler20):\n    \"\"\"Represent a message handler.\"\"\"\n\n    @classmethod\n    async def handle_i_sketch_name(cls, gateway, message, message_buffer):  # noqa: ANN001, ANN206, D102\n        message = await super().handle_i_sketch_name(gateway, message, message_buffer)\n        gateway.nodes[message.node_id].sketch_name = message.payload.strip()\n        return message\n")]),
+    ("c19_renumber_15_internal", "C19 C05", [("src/aiomysensors/model/protocol/protocol_15.py",
+        "    I_SKETCH_NAME = 11\n", "    I_SKETCH_NAME = 12\n"), ("src/aiomysensors/model/protocol/protocol_15.py",
+        "    I_SKETCH_VERSION = 12\n", "    I_SKETCH_VERSION = 11\n")]),
+    ("c19_alias_reorder_22", "C19", [(P22,
+        "    I_DISCOVER_REQUEST = 20\n    I_DISCOVER = 20  # Alias for I_DISCOVER_REQUEST\n    I_DISCOVER_RESPONSE = 21\n    I_HEARTBEAT_RESPONSE = 22\n",
+        "    I_DISCOVER_REQUEST = 20\n    I_DISCOVER = 20  # Alias for I_DISCOVER_REQUEST\n    I_DISCOVER_ANSWER = 21\n    I_DISCOVER_RESPONSE = 21\n    I_HEARTBEAT_RESPONSE = 22\n")]),
+    ("c19_22_set_no_reboot", "C19", [(P22,
+        "class IncomingMessageHandler(IncomingMessageHandler21):\n    \"\"\"Represent a message handler.\"\"\"\n",
+        "class IncomingMessageHandler(IncomingMessageHandler21):\n    \"\"\"Represent a message handler.\"\"\"\n\n    @classmethod\n    async def handle_i_config(cls, gateway, message, message_buffer):  # noqa: ANN001, ANN206, D102\n        if gateway.nodes.get(message.node_id) and gateway.nodes[message.node_id].sleeping:\n            return message\n        return await super().handle_i_config(gateway, message, message_buffer)\n")]),
     ("c09_revert_fix", "C09", [(P20,
         "            if message_buffer.set_messages.get(key) is buffer_message:\n                message_buffer.set_messages.pop(key)",
         "            message_buffer.set_messages.pop(key, None)")]),
